@@ -1,2 +1,90 @@
+"""Engine self-tests, run by setup.sh and by `./check --selftest`:
+   1. toy scenarios with known verdicts (every monitor must fire where it should and stay quiet where it should);
+   2. the futex model against the real kernel (env-conformance);
+   3. determinism: recorded schedules of several families re-executed twice must agree;
+   4. the three failure modes of earlier spin-park rules stay fixed (programs that hung or raised bogus deadlocks)."""
+import os, sys, json, subprocess, re, tempfile
+import mcdriver
+V = mcdriver.V
+
+def nsmc(args, cfg='c-futex'):
+    exe = mcdriver.build(cfg)
+    r = subprocess.run([exe] + args, stdout=subprocess.PIPE, stderr=subprocess.PIPE, text=True, timeout=600)
+    if r.returncode not in (0, 1):
+        raise mcdriver.FrameworkError('nsmc %s: exit %d %s' % (args, r.returncode, r.stderr[-500:]))
+    return json.loads(r.stdout.strip().splitlines()[-1])
+
+TOY = [
+    # program, extra flags, P, expected: None = clean, else regex that must match a violation
+    ('race', ['--hb'], 2, r'data race'),
+    ('norace', ['--hb'], 2, None),
+    ('relacq', ['--hb'], 2, None),
+    ('relaxed', ['--hb'], 2, r'data race'),
+    ('race', [], 2, None),                 # without the monitor nothing may be reported
+    ('uaf', [], 2, r'freed memory'),
+    ('deadstack', [], 2, r'dead stack'),
+    ('overrun', [], 1, r'overruns|outside any allocated block'),
+    ('deadlock', [], 1, r'stuck|deadlock'),
+    ('lostwake', [], 2, r'lost wake-up'),
+    ('spin', [], 3, None),
+    ('pollers', [], 3, None),
+]
+FAIRNESS = [   # (family, program, P, E): must finish with no violation and no horizon hit
+    ('mu', 'L|L|L', 3, 0),                          # version-counter park rule raised a bogus deadlock here
+    ('cv', 'Wrd|Wwd|@2 S', 2, 1),                   # timed-out pollers that write with zero net effect
+    ('cv', 'Wr|Wr|Ww|@3 S', 1, 0),                  # two pollers un-parking each other
+    ('muwait', 'Mw1d|Mw1|@2 A', 2, 1),
+    ('once', 'O|Os|O', 2, 1),
+]
+
 def main():
-    return 0
+    bad = 0
+    for prog, flags, P, expect in TOY:
+        d = nsmc(['--family', 'toy', '--program', prog, '--P', str(P), '--E', '0'] + flags)
+        msgs = [v['msg'] for v in d['violations']]
+        if expect is None:
+            ok = not msgs and d['complete']
+        else:
+            ok = any(re.search(expect, m) for m in msgs)
+        # the lost wake-up must be schedule-dependent: some executions complete, some do not
+        if prog == 'lostwake':
+            ok = ok and d['complete_execs'] > 0
+        print('selftest toy %-10s %-6s expect %-28s -> %s' % (prog, ' '.join(flags), expect or 'clean', 'ok' if ok else 'FAILED %s' % msgs[:2]))
+        bad += not ok
+        if expect and ok:
+            # every reported violation must replay identically
+            v = [v for v in d['violations'] if re.search(expect, v['msg'])][0]
+            exe = mcdriver.build('c-futex')
+            r = subprocess.run([exe, '--family', 'toy', '--program', prog, '--P', str(P), '--E', '0'] + flags + ['--replay', v['schedule']], stdout=subprocess.PIPE, text=True)
+            if 'deterministic=yes' not in r.stdout or r.returncode != 1:
+                print('selftest toy %s: violation does not replay' % prog); bad += 1
+    for fam, prog, P, E in FAIRNESS:
+        d = nsmc(['--family', fam, '--program', prog, '--P', str(P), '--E', str(E), '--sample', '--selftest-determinism'])
+        ok = not d['violations'] and d['complete'] and d.get('determinism_ok', False) and d.get('determinism_checked', 0) > 0
+        print('selftest fairness/determinism %-8s %-16s P=%d E=%d -> %s (%d executions, %d states, %d schedules re-executed)' % (fam, prog, P, E, 'ok' if ok else 'FAILED', d['execs'], d['states'], d.get('determinism_checked', 0)))
+        bad += not ok
+        if ok and 'sample' in d:
+            exe = mcdriver.build('c-futex')
+            r = subprocess.run([exe, '--family', fam, '--program', prog, '--P', str(P), '--E', str(E), '--replay', d['sample']['schedule']], stdout=subprocess.PIPE, text=True)
+            if 'deterministic=yes' not in r.stdout:
+                print('selftest: sample schedule of %s does not replay identically' % prog); bad += 1
+    # env-conformance: the futex model against the real kernel
+    tmp = tempfile.mkdtemp(prefix='nsync-verif.')
+    try:
+        exe = os.path.join(tmp, 'futex_conf')
+        r = subprocess.run(['gcc', '-O1', '-o', exe, os.path.join(V, 'seq/futex_conf.c'), '-lpthread'], stderr=subprocess.PIPE, text=True)
+        if r.returncode:
+            raise mcdriver.FrameworkError('cannot build futex_conf: ' + r.stderr)
+        real = subprocess.run([exe], stdout=subprocess.PIPE, text=True, timeout=60).stdout.replace('\n', ';')
+    finally:
+        import shutil; shutil.rmtree(tmp, ignore_errors=True)
+    for cfg in ('c-futex', 'cpp-futex'):
+        d = nsmc(['--family', 'toy', '--program', 'futexconf', '--P', '0', '--E', '0'], cfg)
+        model = list(d['outcomes'])[0] if d['outcomes'] else ''
+        ok = (model == real) and not d['violations']
+        print('selftest env-conformance (%s): %d futex interactions, model %s the real kernel' % (cfg, real.count(';'), 'agrees with' if ok else 'DISAGREES with'))
+        if not ok:
+            print('  real : ' + real); print('  model: ' + model)
+        bad += not ok
+    print('selftest: %s' % ('all passed' if not bad else '%d FAILED' % bad))
+    return 0 if not bad else 2
